@@ -134,6 +134,28 @@ func multiMembers() []multiMember {
 			orders: [][]string{{"a.json", "b.json"}},
 			outOf:  map[string]string{"a.json": "out.go", "b.json": "out.go"}, pkgOf: map[string]string{"out.go": "example.com/pkg/model"}})
 	}
+	// THREE files with a same-named definition each: whichever two of them are equal (worlds of the order of the three limits), every
+	// property is bound to the declaration of ITS OWN schema — in particular the third to the (suffixed) declaration of the second when
+	// those two are equal and the first differs
+	for _, v := range []struct {
+		what string
+		mk   func() *fam.Spec
+	}{
+		{"minLength", func() *fam.Spec { return &fam.Spec{Kind: "string", Kw: []string{"minLength"}} }},
+		{"maximum", func() *fam.Spec { return &fam.Spec{Kind: "integer", Kw: []string{"maximum"}, IntBounds: true} }},
+	} {
+		mk := func(label, same string) *fam.Spec {
+			s := objSpec(&fam.Prop{Label: "t" + label, SameAs: "t" + same, Spec: v.mk()})
+			s.Ref, s.DefLabel, s.DefSameAs = "$defs", label, same
+			return s
+		}
+		out = append(out, multiMember{name: "same-named definitions in three files with their own " + v.what, cfg: base,
+			files: []*fam.FileSpec{{Name: "a.json", ID: "https://example.com/a", Root: objSpec(&fam.Prop{Label: "o", Spec: mk("k3A", "")})},
+				{Name: "b.json", ID: "https://example.com/b", Root: objSpec(&fam.Prop{Label: "o2", Spec: mk("k3B", "k3A")})},
+				{Name: "c.json", ID: "https://example.com/c", Root: objSpec(&fam.Prop{Label: "o3", Spec: mk("k3C", "k3A")})}},
+			orders: [][]string{{"a.json", "b.json", "c.json"}},
+			outOf:  map[string]string{"a.json": "out.go", "b.json": "out.go", "c.json": "out.go"}, pkgOf: map[string]string{"out.go": "example.com/pkg/model"}})
+	}
 	// same-named definitions in two files whose bodies differ only in the TARGET of a same-text nested reference
 	nest := func(label, same string, leaf *fam.Spec) *fam.Spec {
 		leaf.Ref, leaf.DefLabel, leaf.DefSameAs = "$defs", "leaf"+label, "leaf"+same
